@@ -24,7 +24,7 @@ The per-reaction feeds of a series / system are observed by applying the real co
 other to a copy of the real stream.
 """
 from __future__ import annotations
-import math, warnings
+import collections, math, warnings
 from fractions import Fraction
 from harness.core import Case, ImplResult, frac
 
@@ -43,6 +43,9 @@ ASSUMPTIONS = [
     'H(n, T) (mixture enthalpy) is a parameter: the recorded stream.H values are passed to the model',
     'H-setter post-condition |H(T_out) − H_target| ≤ ε with ε = 1e-5·C + 1e-9·scale (monitored on every adiabatic op)',
     'stoichiometry, reactant index and X are read back from the real reaction objects (parsing / rescaling is C05)',
+    'adiabatic / Hnet-setter ops whose T-solver raises or whose outlet state cannot be judged still compare the reacted flows and the '
+    'setter target (adiat / sethnett lines) and are counted against ceilings (RATE_CEILINGS ≈ 3× the validated share; signature '
+    'unjudged-rate-exceeded:*)',
     'adiabatic ops whose outlet temperature leaves [150, 3000] K are outside the quantifier and not judged; nor are those whose '
     'balance is off while H(T) of a fresh stream is not finite, strictly increasing and jump-free between inlet and outlet '
     'temperature (EOS root switching of gas-phase departure functions below saturation): outside the property models\' range',
@@ -148,8 +151,8 @@ def setup():
 
 
 def budget(tier):
-    return {'quick': dict(seconds=80, cases=3600, shrink_s=20, search_s=5),
-            'thorough': dict(seconds=520, cases=50000, shrink_s=40, search_s=10)}[tier]
+    return {'quick': dict(seconds=85, cases=3200, shrink_s=20, search_s=5),
+            'thorough': dict(seconds=540, cases=36000, shrink_s=40, search_s=10)}[tier]
 
 
 # --------------------------------------------------------------------------
@@ -309,6 +312,7 @@ def run_impl(case: Case) -> ImplResult:
     tmo.settings.set_thermo(ta)
     CHEM.clear(); CHEM.update(chem_data(ta.chemicals) if revising else {k: dict(v) for k, v in BASE_CHEM.items()})
     model_in, outs, failures, tags = [], [], [], set()
+    counts = collections.Counter()
     nontrivial = False
     rx, streams = {}, {}
     def emit(line, ans): model_in.append(line); outs.append(ans)
@@ -476,6 +480,10 @@ def run_impl(case: Case) -> ImplResult:
                 s = tmo.MultiStream(None, T=T, P=P, phases=tuple(ph), thermo=th)
                 for ID, p_, a in flows: s.imol[p_, ID] = float(a)
             streams[sid] = s
+        elif op == 'view':
+            # a phase view of a MultiStream (`ms['l']`): a single-phase Stream sharing the parent's flows and T, P
+            if t[2] in streams:
+                streams[t[1]] = streams[t[2]][t[3]]; tags.add('view-of-multistream')
         elif op == 'mixed':
             # a member of a ReactionSystem switched to the other basis after the system was built: the system's own
             # `_reaction` must refuse (RuntimeError) rather than apply weight stoichiometry to molar flows or vice versa
@@ -513,23 +521,29 @@ def run_impl(case: Case) -> ImplResult:
             V = Hnet0 + float(t[2]) * C0
             P0, ph0 = float(s.P), (tuple(s.phases) if phases else s.phase)
             del _SETREC[:]
+            counts['sethnet'] += 1
+            def sethnet_target_only(why):
+                tags.add(why); counts[why] += 1
+                if _SETREC:
+                    emit('sethnett %s V=%s n=%s' % (''.join(phases) or '-', fr(V), frs(n0)), 'target=%s' % fr(_SETREC[-1]))
+                del streams[t[1]]
             try:
                 s.Hnet = V
             except PROP_ERRORS:
                 if not _SETREC: raise
-                tags.add('skip:sethnet-solver-raised'); del streams[t[1]]; continue
+                sethnet_target_only('sethnet:solver-raised'); continue
             target = _SETREC[-1] if _SETREC else None
             T1 = float(s.T)
             try:
                 Hgot, Hf1, Hnet1, C1 = float(s.H), float(s.Hf), float(s.Hnet), float(s.C)
             except PROP_ERRORS:
-                tags.add('skip:no-H-model'); del streams[t[1]]; continue
+                sethnet_target_only('sethnet:no-H-model-at-outlet'); continue
             if not (math.isfinite(T1) and T_RANGE[0] <= T1 <= T_RANGE[1] and all(map(math.isfinite, (Hgot, Hnet1, C1)))):
-                tags.add('sethnet:outlet-T-out-of-range'); del streams[t[1]]; continue
+                sethnet_target_only('sethnet:outlet-T-out-of-range'); continue
             scale = sum(abs(CHEM[IDS[k % len(IDS)]]['Hf'] * v) for k, v in enumerate(n0)) + abs(V) + abs(Hgot)
             eps = 1e-5 * max(abs(C0), abs(C1)) + 1e-9 * scale
             if not abs(Hnet1 - V) <= eps and not H_regular(s, T0s, T1):
-                tags.add('sethnet:H-model-irregular-over-interval'); del streams[t[1]]; continue
+                sethnet_target_only('sethnet:H-model-irregular-over-interval'); continue
             emit('sethnet %s V=%s n=%s Hgot=%s eps=%s' % (''.join(phases) or '-', fr(V), frs(n0), fr(Hgot), fr(eps)),
                  'target=%s Hnet1=%s resid=%s hyp=ok' % (fr(target) if target is not None else 'none', fr(Hnet1), fr(Hnet1 - V)))
             tags.add('sethnet:multi' if phases else 'sethnet:single')
@@ -600,7 +614,7 @@ def run_impl(case: Case) -> ImplResult:
                 emit('iso %s n=%s H0=%s H1=%s' % (t[1], frs(n0), fr(H0), fr(H1)),
                      'n=%s Hf0=%s Hf1=%s %sdHnet=%s chk=ok' % (frs(n1), fr(Hf0), fr(Hf1),
                                                               'heat=%s ' % fr(heat) if heat is not None else '', fr(dHnet)))
-                tags.add('iso:' + kindtag)
+                tags.add('iso:' + kindtag); counts['iso'] += 1
                 if heat is None:
                     # a constituent reaction alone would be infeasible on the intermediate material although the whole
                     # system is not: the per-reaction feeds cannot be observed on the real code; flows/Hf/Hnet still compared
@@ -618,7 +632,7 @@ def run_impl(case: Case) -> ImplResult:
                 at_ref = T0 == TREF and not excess and all(
                     (CHEM[IDS[i]]['ref'] == (phases[p] if phases else s.phase)) for m in singles for (p, i, _) in m['rec']['nz'])
                 if at_ref:
-                    tags.add('iso:at-reference')
+                    tags.add('iso:at-reference'); counts['iso:at-reference'] += 1
                     if not abs(dHnet - heat) <= tolv:
                         fail('isothermal-at-reference:' + kindtag,
                              f'at 298.15 K with every reacting chemical in its reference phase ΔHnet={dHnet!r} but '
@@ -630,6 +644,16 @@ def run_impl(case: Case) -> ImplResult:
                 dT = float(t[3])
                 Q = dT * C0
                 del _SETREC[:]
+                counts['adia'] += 1
+                def target_only(why):
+                    # the outlet state cannot be judged (T-solver raised / outlet outside the models' range): the reacted flows
+                    # and the value handed to the H setter are still compared with the model, and the outcome is counted
+                    # against a ceiling (RATE_CEILINGS) so that a regression cannot hide as a "skip"
+                    tags.add(why); counts[why] += 1
+                    if _SETREC:
+                        emit('adiat %s Q=%s n=%s H0=%s' % (t[1], fr(Q), frs(n0), fr(H0)),
+                             'n=%s target=%s Hnet0=%s' % (frs(flat_n(s, phases)), fr(_SETREC[-1]), fr(Hnet0)))
+                    del streams[t[2]]
                 try:
                     x['obj'].adiabatic_reaction(s, Q)
                 except tmo.exceptions.InfeasibleRegion:
@@ -637,22 +661,22 @@ def run_impl(case: Case) -> ImplResult:
                     tags.add('adia:infeasible'); del streams[t[2]]; continue
                 except PROP_ERRORS:
                     if not _SETREC: raise          # not the T-solver / property models: a real failure of the call
-                    tags.add('skip:adia-solver-raised'); del streams[t[2]]; continue
+                    target_only('adia:solver-raised'); continue
                 target = _SETREC[-1] if _SETREC else None
                 T1 = float(s.T)
                 try:
                     Hgot, Hf1, Hnet1, C1 = float(s.H), float(s.Hf), float(s.Hnet), float(s.C)
                 except PROP_ERRORS:
-                    tags.add('skip:no-H-model'); del streams[t[2]]; continue
+                    target_only('adia:no-H-model-at-outlet'); continue
                 n1 = flat_n(s, phases)
                 scale = scale0 + sum(abs(CHEM[IDS[k % len(IDS)]]['Hf'] * v) for k, v in enumerate(n1)) + abs(H0) + abs(Hgot) + abs(Q)
                 inrange = math.isfinite(T1) and T_RANGE[0] <= T1 <= T_RANGE[1] and all(map(math.isfinite, (Hgot, Hnet1, C1)))
                 if not inrange:
-                    tags.add('adia:outlet-T-out-of-range'); del streams[t[2]]; continue
+                    target_only('adia:outlet-T-out-of-range'); continue
                 eps = 1e-5 * max(abs(C0), abs(C1)) + 1e-9 * scale
                 resid = Hnet1 - (Hnet0 + Q)
                 if not abs(resid) <= eps and not H_regular(s, T0, T1):
-                    tags.add('adia:H-model-irregular-over-interval'); del streams[t[2]]; continue
+                    target_only('adia:H-model-irregular-over-interval'); continue
                 emit('adia %s Q=%s n=%s H0=%s Hgot=%s eps=%s' % (t[1], fr(Q), frs(n0), fr(H0), fr(Hgot), fr(eps)),
                      'n=%s target=%s Hnet0=%s Hnet1=%s resid=%s hyp=ok' % (
                          frs(n1), fr(target) if target is not None else 'none', fr(Hnet0), fr(Hnet1), fr(resid)))
@@ -677,8 +701,10 @@ def run_impl(case: Case) -> ImplResult:
                          f'(tolerance {eps:.3g}; T_out={T1})')
         else:
             raise ValueError('unknown op ' + line)
-    return ImplResult(model_in=model_in, outs=outs, failures=failures, tags=sorted(tags),
-                      nontrivial=(tuple(case.ops) if nontrivial else None))
+    res = ImplResult(model_in=model_in, outs=outs, failures=failures, tags=sorted(tags),
+                     nontrivial=(tuple(case.ops) if nontrivial else None))
+    res.counts = dict(counts)
+    return res
 
 
 # --------------------------------------------------------------------------
@@ -733,6 +759,46 @@ def compare(impl_line, model_line):
         return False
 
 
+# Outcomes that leave an adiabatic / Hnet-setter operation only partly judged (flows and setter target compared, outlet state
+# not), as a share of the operations attempted.  Ceilings ≈ 3× the largest share seen over 12 seeds of the unchanged tree; a
+# regression that makes the T-solver raise or throws the outlet far off must not look like a skip.
+RATE_CEILINGS = {
+    # observed over 10 seeds: ≤ 1.8 %, ≤ 1.8 %, ≤ 0.36 %, 0
+    ('adia', 'adia:solver-raised'): 0.06, ('adia', 'adia:outlet-T-out-of-range'): 0.06,
+    ('adia', 'adia:H-model-irregular-over-interval'): 0.015, ('adia', 'adia:no-H-model-at-outlet'): 0.01,
+    # observed: ≤ 0.05 %, ≤ 0.1 %, ≤ 0.62 %, 0
+    ('sethnet', 'sethnet:solver-raised'): 0.01, ('sethnet', 'sethnet:outlet-T-out-of-range'): 0.01,
+    ('sethnet', 'sethnet:H-model-irregular-over-interval'): 0.02, ('sethnet', 'sethnet:no-H-model-at-outlet'): 0.01,
+}
+RATE_MIN_OPS = 500
+_RUN = collections.Counter()
+_FIRED = set()
+
+
+def filter_failures(res, model_out):
+    """accumulates the operation counts of the whole run and reports a ceiling once it is exceeded"""
+    fails = list(res.failures)
+    c = getattr(res, 'counts', None)
+    if c and not getattr(res, '_counted', False):
+        res._counted = True
+        _RUN.update(c)
+        for (den, num), ceiling in RATE_CEILINGS.items():
+            if _RUN[den] >= RATE_MIN_OPS and _RUN[num] > ceiling * _RUN[den] and (den, num) not in _FIRED:
+                _FIRED.add((den, num))
+                fails.append({'signature': 'unjudged-rate-exceeded:' + num, 'op_index': None,
+                              'what': f'{_RUN[num]} of {_RUN[den]} `{den}` operations so far ended as `{num}` (ceiling {ceiling:.0%} of the '
+                                      f'operations attempted): the T-solver / outlet state is failing far more often than on the '
+                                      f'validated tree, so these operations are no longer judged'})
+    return fails
+
+
+def extra_evidence(executed, model_outs):
+    tot = collections.Counter()
+    for _, r in executed: tot.update(getattr(r, 'counts', {}) or {})
+    return {'operation_counts': dict(tot),
+            'unjudged_shares': {num: (tot[num] / tot[den] if tot[den] else 0.0) for (den, num) in RATE_CEILINGS}}
+
+
 def disagree_signature(case, res, first):
     op = res.model_in[first].split(' ')[0] if first < len(res.model_in) else 'length'
     return 'disagree:' + op
@@ -780,6 +846,8 @@ BASE_HF = {'Water': -285825.0, 'Ethanol': -277030.0, 'Methanol': -238400.0, 'Glu
            'H2': 0.0, 'CH4': -74534.0, 'AceticAcid': -483580.0, 'N2': 0.0, 'CO': -110525.0, 'EthylAcetate': -479300.0}
 BASE_MW = {'Water': 18.01528, 'Ethanol': 46.06844, 'Methanol': 32.04186, 'Glucose': 180.15588, 'CO2': 44.0095, 'O2': 31.9988,
            'H2': 2.01588, 'CH4': 16.04246, 'AceticAcid': 60.05196, 'N2': 28.0134, 'CO': 28.0101, 'EthylAcetate': 88.10512}
+# untagged reactions whose chemicals all have the same reference phase (usable at the reference state on a one-phase stream)
+REF_HOMOGENEOUS = {'g': [LIB[8]], 'l': [LIB[12], LIB[16]]}
 CHEM_REF = {'Water': 'l', 'Ethanol': 'l', 'Methanol': 'l', 'Glucose': 's', 'CO2': 'g', 'O2': 'g', 'H2': 'g', 'CH4': 'g',
             'AceticAcid': 'l', 'N2': 'g', 'CO': 'g', 'EthylAcetate': 'l'}
 
@@ -794,8 +862,16 @@ def gen_case(rng):
     if basis == 'wt' and rng.random() < 0.4: basis = 'wtc'      # defined by weight at construction: Reaction(eq, basis='wt')
     r = rng.random()
     tagging = None if r < 0.5 else 'ref' if r < 0.7 else 'gl' if r < 0.83 else 'gls' if r < 0.95 else 'bad'
+    # reference-state cases: 298.15 K, default mixture, every reacting chemical in its reference phase — the only place where
+    # the exact clause ΔHnet = Σ dH·feed can be judged on real thermosteam; the first operation is the isothermal reaction
+    refmode = rng.random() < 0.24
+    ref_phase = None
+    if refmode:
+        tagging = 'ref' if rng.random() < 0.8 else None
+        if tagging is None: ref_phase = rng.choice('gll')
     nrx = rng.choice([1, 1, 2, 2, 3, 4])
     lib = [rng.choice(LIB) for _ in range(nrx)]
+    if ref_phase: lib = [rng.choice(REF_HOMOGENEOUS[ref_phase]) for _ in range(nrx)]
     eqs = [equation(d, tagging, rng, by_weight=(basis == 'wtc')) for d in lib]
     # explicit `phases=` makes every reaction of the case expose the same phase rows (needed for sets / systems)
     ph = None
@@ -847,8 +923,8 @@ def gen_case(rng):
     used, ureact, ueqs = lib[:nused], reactants[:nused], eqs[:nused]
     has_glucose = any('Glucose' in d for d in used)
     for sidx in range(rng.choice([1, 2, 2, 3])):
-        T = TREF if rng.random() < 0.3 else round(rng.uniform(280, 450), 2)
-        sph = ph if tagging else ('l' if has_glucose else rng.choice('gl'))
+        T = TREF if (refmode or rng.random() < 0.3) else round(rng.uniform(280, 450), 2)
+        sph = ph if tagging else (ref_phase or ('l' if has_glucose else rng.choice('gl')))
         # amounts per (chemical, phase): the designated reactants first, then enough of every co-reactant for the
         # largest possible extents (a tagged reaction draws each chemical from the phase of its tag)
         def key(ID, eq):
@@ -884,32 +960,39 @@ def gen_case(rng):
         flows = ['%s:%s:%s' % (ID, p_, num(a)) for (ID, p_), a in amt.items()]
         P = rng.choice([101325, 101325, 50000, 202650, 1000000, 1500000])
         # property package: chemical order A or B, default ideal mixture or the one that includes excess energies
-        pk = (1 if rng.random() < 0.3 else 0) + (2 if rng.random() < 0.35 else 0)
-        ops.append('S s%d %d %s %s %s %s' % (sidx, pk, num(T), num(P), sph, ','.join(flows)))
+        pk = (1 if rng.random() < 0.3 else 0) + (2 if (rng.random() < 0.35 and not refmode) else 0)
+        sname = 's%d' % sidx
+        if not tagging and not refmode and rng.random() < 0.12:
+            # the untagged reaction acts on a phase view of a two-phase MultiStream
+            ops.append('S s%d %d %s %s gl %s' % (sidx, pk, num(T), num(P), ','.join(flows)))
+            sname = 'v%d' % sidx
+            ops.append('view %s s%d %s' % (sname, sidx, sph))
+        else:
+            ops.append('S s%d %d %s %s %s %s' % (sidx, pk, num(T), num(P), sph, ','.join(flows)))
         # read histories: (H, Hnet, C are read before every reaction) → reaction at unchanged T, P → another memoised
         # property (`peek=`) → H / Hnet again, or adiabatic_reaction started from that state
-        def pk(p): return (' peek=' + rng.choice(PEEKS)) if rng.random() < p else ''
-        if rng.random() < 0.25:
+        def pkk(p): return (' peek=' + rng.choice(PEEKS)) if rng.random() < p else ''
+        if rng.random() < 0.25 and not refmode:
             # the Hnet setter (`stream.Hnet = value`), before and/or after the reactions
-            ops.append('sethnet s%d %s%s' % (sidx, num(rng.choice([0, 5, -10, 40, 120])), pk(0.3)))
-        if rng.random() < 0.5:
-            ops.append('iso %s s%d%s' % (top, sidx, pk(0.6)))
-            if rng.random() < 0.2: ops.append('peek s%d %s' % (sidx, rng.choice(PEEKS)))
-            if rng.random() < 0.45: ops.append('adia %s s%d %s %s%s' % (top, sidx, num(rng.choice([0, 0, 10, -20, 50])), sph, pk(0.3)))
+            ops.append('sethnet %s %s%s' % (sname, num(rng.choice([0, 5, -10, 40, 120])), pkk(0.3)))
+        if refmode or rng.random() < 0.5:
+            ops.append('iso %s %s%s' % (top, sname, pkk(0.6)))
+            if rng.random() < 0.2: ops.append('peek %s %s' % (sname, rng.choice(PEEKS)))
+            if rng.random() < 0.45: ops.append('adia %s %s %s %s%s' % (top, sname, num(rng.choice([0, 0, 10, -20, 50])), sph, pkk(0.3)))
         else:
             dT = rng.choice([0, 0, 0, 5, -10, 30, 100]) if rng.random() < 0.7 else round(rng.uniform(-40, 120), 2)
             if rng.random() < 0.06 and not tagging:
                 dT = rng.choice([-250, -180]) if sph == 'g' else rng.choice([300, 600])     # towards the setter's phase-flip fallback
-            ops.append('adia %s s%d %s %s%s' % (top, sidx, num(dT), sph, pk(0.3)))
-            if rng.random() < 0.3: ops.append('iso %s s%d%s' % (top, sidx, pk(0.6)))
-        if rng.random() < 0.15: ops.append('sethnet s%d %s%s' % (sidx, num(rng.choice([0, 15, -25, 60])), pk(0.5)))
+            ops.append('adia %s %s %s %s%s' % (top, sname, num(dT), sph, pkk(0.3)))
+            if rng.random() < 0.3: ops.append('iso %s %s%s' % (top, sname, pkk(0.6)))
+        if rng.random() < 0.15: ops.append('sethnet %s %s%s' % (sname, num(rng.choice([0, 15, -25, 60])), pkk(0.5)))
         if sidx == 0 and top == 'y0' and rng.random() < 0.25:
             plain = [o.split(' ')[2].split(',') for o in ops if o.startswith('Y y0 ')][0]
             plain = [i for i in plain if i.startswith('r')]
-            if plain: tail_ops.append('mixed y0 %s s0' % rng.choice(plain))
+            if plain: tail_ops.append('mixed y0 %s %s' % (rng.choice(plain), sname))
         if revise_late and sidx == 0:
             ops.extend(revision())
-            if rng.random() < 0.5: ops.append('iso %s s0%s' % (top, pk(0.5)))      # the stream created before the revision
+            if rng.random() < 0.5: ops.append('iso %s %s%s' % (top, sname, pkk(0.5)))      # the stream created before the revision
     return Case(ops + tail_ops, {})
 
 
